@@ -914,7 +914,33 @@ func rewriteSelects(fc *fileCtx) {
 				Body: &ast.BlockStmt{List: stmts},
 			})
 		}
-		pre = append(pre, &ast.IfStmt{Cond: &ast.UnaryExpr{Op: token.NOT, X: ast.NewIdent(doneName)}, Body: &ast.BlockStmt{List: []ast.Stmt{sel}}})
+		// When no case body can fall out of the select (each ends in return / panic /
+		// continue / goto and none breaks), "done" is never observed as true here and
+		// the original select stays unconditional, so a terminating select keeps
+		// terminating its function.
+		allLeave := true
+		for _, cl := range sel.Body.List {
+			cc := cl.(*ast.CommClause)
+			if len(cc.Body) == 0 || !isTerminating(cc.Body[len(cc.Body)-1]) {
+				allLeave = false
+			}
+			for _, st := range cc.Body {
+				ast.Inspect(st, func(n ast.Node) bool {
+					if _, ok := n.(*ast.FuncLit); ok {
+						return false
+					}
+					if b, ok := n.(*ast.BranchStmt); ok && b.Tok == token.BREAK {
+						allLeave = false
+					}
+					return true
+				})
+			}
+		}
+		if allLeave {
+			pre = append(pre, sel)
+		} else {
+			pre = append(pre, &ast.IfStmt{Cond: &ast.UnaryExpr{Op: token.NOT, X: ast.NewIdent(doneName)}, Body: &ast.BlockStmt{List: []ast.Stmt{sel}}})
+		}
 		c.Replace(&ast.BlockStmt{List: pre})
 		fc.modified = true
 		return true
